@@ -27,3 +27,32 @@ Example C07_ac3_example :
    | _ => False
    end).
 Proof. vm_compute. reflexivity. Qed.
+
+(* ---- the translated kernels (tools/go2coq, regenerated from the Go source on every run) ----
+   The resynchronisation tests of rtpac3/decoder.go - mbz := Payload[0] >> 2 with mbz != 0, ft := Payload[0] & 0b11, the
+   case constants 0 / 1, 2 / 3 of the switch over ft, d.fragmentNextSeqNum = pkt.SequenceNumber + 1, the continuity test
+   pkt.SequenceNumber != d.fragmentNextSeqNum, d.fragmentNextSeqNum++, d.fragmentsSize == 0 - ARE the tests of Model.dec:
+   b0 / 4 =? 0, b0 mod 4, ft =? 0 / ft <=? 2 / else, seq_next, pseq p =? dnext d, dsize d =? 0. *)
+From Coq Require Import ZArith.
+From GVG Require Import Kern.
+From GV_ac3 Require Import BridgeLib Bridge.
+Open Scope Z_scope.
+
+Theorem C07_ac3_kernels_are_the_code : forall (b0 seq next fs : N), isbyte b0 ->
+  k_ac3_dec_mbznz (k_ac3_dec_mbz (Z.of_N b0)) = negb (b0 / 4 =? 0)%N /\
+  k_ac3_dec_ft (Z.of_N b0) = Z.of_N (b0 mod 4) /\
+  ft_class (k_ac3_dec_ft (Z.of_N b0)) = (if b0 mod 4 =? 0 then 0 else if b0 mod 4 <=? 2 then 1 else 3)%N /\
+  k_ac3_dec_nextseq (Z.of_N seq) = Z.of_N (seq_next seq) /\
+  k_ac3_dec_incseq (Z.of_N next) = Z.of_N (seq_next next) /\
+  k_ac3_dec_gap (Z.of_N seq) (Z.of_N next) = negb (seq =? next)%N /\
+  k_ac3_dec_idle (Z.of_N fs) = (fs =? 0)%N.
+Proof. exact resync_kernels_are_the_code. Qed.
+Print Assumptions C07_ac3_kernels_are_the_code.
+
+(* 0x04 has a non-zero MBZ, 0x03 has not and is frame type 3; types 1 and 2 share a case; 65535 + 1 = 0 *)
+Example C07_ac3_example_kernels :
+  k_ac3_dec_mbznz (k_ac3_dec_mbz 4) = true /\ k_ac3_dec_mbznz (k_ac3_dec_mbz 3) = false /\ k_ac3_dec_ft 7 = 3 /\
+  ft_class 0 = 0%N /\ ft_class 1 = 1%N /\ ft_class 2 = 1%N /\ ft_class 3 = 3%N /\
+  k_ac3_dec_nextseq 65535 = 0 /\ k_ac3_dec_incseq 9 = 10 /\
+  k_ac3_dec_gap 10 10 = false /\ k_ac3_dec_gap 11 10 = true /\ k_ac3_dec_idle 0 = true /\ k_ac3_dec_idle 1 = false.
+Proof. vm_compute. repeat split. Qed.
